@@ -64,14 +64,17 @@ def act_half(x):
 scen.ACTS.update({"id": act_id, "relu": act_relu, "hardtanh": act_hardtanh, "half": act_half})
 
 
-def fb_half(x):
+# USER feedback functions of the legacy scenarios.  They deliberately carry the NAMES of library activations while computing
+# something else (the saved model records `fbfunc.__name__`; what must be restored is the function, not its name).
+def sigmoid(x):
     return x / 2.0
 
 
-def fb_relu(x):
+def softmax(x):
     return np.maximum(x, 0.0)
 
 
+fb_half, fb_relu = sigmoid, softmax
 FBF = {"id": None, "half": fb_half, "relu": fb_relu}
 FBK = {"id": "GId", "half": "GHalf", "relu": "GRelu"}
 PICKLABLE = ("res", "resext", "resfb", "lin", "delay", "nvar", "input", "output")
